@@ -8,7 +8,7 @@ GROUPS_T = ["validators", "cond", "before", "on", "after"]
 
 def rand_def(rng, *, nstates=None, ntrans=None, provs=("sm",), dense=0.5, coro=0.0, styles=True,
              guards=True, validators=True, finals=True, name="M", yields=0, guard_p=0.5,
-             validator_p=0.15, events=None, evcb_p=0.0):
+             validator_p=0.15, events=None, evcb_p=0.0, alias_p=0.15):
     n = nstates or rng.randint(2, 5)
     ids = [f"s{k}" for k in range(n)]
     nfinal = rng.randint(0, max(0, n - 2)) if finals else 0
@@ -114,6 +114,25 @@ def rand_def(rng, *, nstates=None, ntrans=None, provs=("sm",), dense=0.5, coro=0
                     cbs.append({"okind": "T", "owner": "", "tix": j, "group": rng.choice(["before", "on", "after"]),
                                 "prov": "sm", "coro": False, "yields": 0, "gname": "none", "expected": True, "ret": "none",
                                 "style": "event", "evcb": rng.choice(options)})
+    # one callable / one name given to several groups of the same transition (before="audit", on="audit") or to the
+    # enter and exit of the same state: it runs once in EACH of them
+    nalias = 0
+    for cb in list(cbs):
+        if rng.random() >= alias_p or cb.get("coro") or cb.get("alias") or cb.get("evcb"):
+            continue
+        if cb["okind"] == "T" and cb["group"] in ("before", "on", "after") and cb.get("style") in ("name", "callable", "method"):
+            others = [g for g in ("before", "on", "after") if g != cb["group"]]
+        elif cb["okind"] == "S" and cb.get("style") in ("name", "callable", "method"):
+            others = [g for g in ("enter", "exit") if g != cb["group"]]
+        else:
+            continue
+        nalias += 1
+        cb["alias"] = f"A{nalias}"
+        cb["name"] = f"shared_fn_{nalias}"
+        for g in rng.sample(others, rng.randint(1, len(others))):
+            twin = dict(cb, group=g)
+            twin["ret"] = rng.choice(["none", f"r{len(cbs) + 1}"]) if g in ("before", "on") else "none"
+            cbs.append(twin)
     used = [e for e in evs if any(e in t["evs"] for t in trans)]
     return {"name": name, "states": states, "trans": trans, "initial": ids[0], "cbs": cbs,
             "evstyle": "param", "evlist": used}
